@@ -195,6 +195,7 @@ PkCases ==
   \cup { << "xov", v >> : v \in 1..NVals }
   \cup { << "xok", k >> : k \in 1..12 }
   \cup { << "xoe", j >> : j \in 1..6 }
+  \cup { << "band", w, j, lo, form >> : w \in {52, 26}, j \in 1..9, lo \in 0..5, form \in 0..2 }
 Cases == DerCases \cup SerCases \cup CompactCases \cup PkCases
 
 -----------------------------------------------------------------------------
@@ -243,6 +244,14 @@ C3X(xc) == CASE xc = 1 -> Zero [] xc = 2 -> One [] xc = 3 -> Sub(P, One) [] xc =
 C3Y(x, yc) ==
   LET c == FSqrtCand(CurveRhs(Mod(x, P)))  ev == IF IsOdd(c) THEN FNeg(c) ELSE c IN
   CASE yc = 1 -> ev [] yc = 2 -> FNeg(ev) [] yc = 3 -> FAdd(ev, One) [] yc = 4 -> P [] yc = 5 -> C3Max256 [] yc = 6 -> Zero
+\* coordinates just BELOW p whose limbs (52-bit or 26-bit layout) are all-ones except that one bit of limb j is cleared, with the lowest
+\* limb at / above the lowest limb of p: a range check that consults the wrong limb misjudges exactly these.  Valid field elements.
+C3PLow(w) == Mod(P, Pow2(w))
+C3Band(w, j0, lo) ==
+  LET j == ((j0 - 1) % ((256 \div w) - 1)) + 1                     \* limb index 1 .. number of limbs - 1 (j0 wraps for the 52-bit layout)
+      low == CASE lo = 0 -> C3PLow(w) [] lo = 1 -> Add(C3PLow(w), One) [] lo = 2 -> Sub(Pow2(w), One) [] lo = 3 -> Add(C3PLow(w), FromNat(2))
+               [] lo = 4 -> Add(C3PLow(w), FromNat(3)) [] lo = 5 -> Sub(Pow2(w), FromNat(2))
+  IN  Add(Sub(Sub(Pow2(256), Pow2(w)), Pow2(w * j)), low)
 C3PkString(pre, len, xc, yc) ==
   LET x == C3X(xc)  full == << pre >> \o C3B(x) \o C3B(C3Y(x, yc)) \o << 0 >> IN SubSeq(full, 1, len)
 C3XoEdge == << Sub(P, One), P, Add(P, One), C3Max256, Sub(P, Two), Pow2(255) >>
@@ -257,6 +266,10 @@ ExpandOther(c) ==
     [] c[1] = "pk"      -> [ e |-> "PubkeyParse", in |-> [ pub |-> C3PkString(c[2], c[3], c[4], c[5]) ] ]
     [] c[1] = "pkser"   -> LET Q == C3ValidX(c[2] + 1) IN
                            [ e |-> "PubkeySerialize", in |-> [ pub |-> IF c[2] = 2 THEN PkEncHybrid(Q) ELSE PkEnc33(Q), comp |-> c[3], cap |-> c[4] ] ]
+    [] c[1] = "band"    -> LET x == C3Band(c[2], c[3], c[4])  l == LiftX(x) IN
+                           IF c[5] = 0 THEN [ e |-> "XonlyParse", in |-> [ x |-> C3B(x) ] ]
+                           ELSE IF c[5] = 1 THEN [ e |-> "PubkeyParse", in |-> [ pub |-> << 2 >> \o C3B(x) ] ]
+                           ELSE [ e |-> "PubkeyParse", in |-> [ pub |-> << 4 >> \o C3B(x) \o C3B(IF l[1] THEN l[2][2] ELSE One) ] ]
     [] c[1] = "xo"      -> [ e |-> "XonlyParse", in |-> [ x |-> C3B(FromNat(c[2])) ] ]
     [] c[1] = "xop"     -> [ e |-> "XonlyParse", in |-> [ x |-> C3B(Add(P, FromNat(c[2]))) ] ]   \* x + p: same residue, not canonical
     [] c[1] = "xov"     -> [ e |-> "XonlyParse", in |-> [ x |-> C3B(Mod(C3Vals[c[2]], Pow2(256))) ] ]
